@@ -413,12 +413,22 @@ def check_dom(progs, callers_establish=None):
                 continue
             linit = locals_with_assignments(body)
             init = frozenset()
-            # swap2_impl is only ever entered from swap2 after adjustEachOtherCapacity (checked as who-may-call)
-            if short(f['name']) == 'swap2_impl':
-                callers = [g for g in prog.amc_functions() if f['id'] in g.get('calls', [])]
-                okc = callers and all(short(g['name']) == 'swap2' and _call_precedes(g, 'adjustEachOtherCapacity', f['id']) for g in callers)
-                if okc:
-                    init = frozenset({'chk:this', 'chk:*'})
+            # swap2_impl is only ever entered from swap2 after adjustEachOtherCapacity (checked as who-may-call); a private helper
+            # extracted from it (or from any member entered that way) inherits the established check from all its callers
+
+            def checked_entry(h, depth=0):
+                if depth > 3:
+                    return False
+                callers = [g for g in prog.amc_functions() if h['id'] in g.get('calls', []) and g['id'] != h['id']]
+                if not callers:
+                    return False
+                if short(h['name']) == 'swap2_impl':
+                    return all(short(g['name']) == 'swap2' and _call_precedes(g, 'adjustEachOtherCapacity', h['id']) for g in callers)
+                if h.get('access') == 'public':
+                    return False
+                return all(checked_entry(g, depth + 1) for g in callers)
+            if checked_entry(f):
+                init = frozenset({'chk:this', 'chk:*'})
             seen = {}
 
             def report(n, need, ok, d, f=f, prog=prog, seen=seen):
